@@ -50,7 +50,18 @@ func main(a []byte, b []byte) (byte, int32, byte) {
 `,
 }
 
-var templateNames = []string{"unsized-uint", "unsized-int-branch", "unsized-bytes"}
+func init() {
+	// The same dynamically indexed read on two slices whose lengths are
+	// instantiated from the inputs (the per-instruction circuit cache must
+	// distinguish them).
+	templates["unsized-bytes-dynidx"] = `package main
+func main(a []byte, b []byte) (byte, byte) {
+	return a[a[0]&3] + b[b[0]&3], a[b[0]&1] ^ b[a[0]&1]
+}
+`
+}
+
+var templateNames = []string{"unsized-uint", "unsized-int-branch", "unsized-bytes", "unsized-bytes-dynidx"}
 
 func hexDigits(t *rapid.T, n int, label string) string {
 	var sb strings.Builder
@@ -65,6 +76,9 @@ func genTemplate(t *rapid.T) Case {
 	name := rapid.SampledFrom(templateNames).Draw(t, "template")
 	cs := Case{Src: templates[name], Tmpl: name, Seed: rapid.Uint64().Draw(t, "seed")}
 	switch name {
+	case "unsized-bytes-dynidx":
+		cs.X = []string{hexDigits(t, 2*rapid.IntRange(4, 9).Draw(t, "alen"), "a")}
+		cs.Y = []string{hexDigits(t, 2*rapid.IntRange(4, 9).Draw(t, "blen"), "b")}
 	case "unsized-bytes":
 		cs.X = []string{hexDigits(t, 2*rapid.IntRange(1, 6).Draw(t, "alen"), "a")}
 		cs.Y = []string{hexDigits(t, 2*rapid.IntRange(1, 6).Draw(t, "blen"), "b")}
